@@ -298,6 +298,30 @@ static void k_it_rev(int elem) {     /* kind 10, rows: n script... -> Rust calls
   }
 }
 
+/* ---- kind 11: an arc BUILT HERE as a handle table; Rust clones / reads / releases it through the stored functions -------------------------- */
+typedef struct { uint64_t value; int live; } ANode;          /* instance = &node->value = the node */
+static ANode anodes[4096]; static int n_anodes, a_clones, a_drops, a_bad;
+static const void *c_arc_clone(const void *p) {
+  const ANode *src = (const ANode *)p; if (!p || !src->live) a_bad++;
+  ANode *nn = &anodes[n_anodes++]; nn->value = src ? src->value : 0; nn->live = 1; a_clones++; return nn;      /* a DISTINCT handle */
+}
+static void c_arc_drop(const void *p) { ANode *n = (ANode *)p; if (!p || !n->live) a_bad++; else n->live = 0; a_drops++; }
+extern uint64_t rt_arc_rev(CArcV a, size_t n);
+static void k_arc_rev(void) {         /* rows 'v n' -> sum read through the n+1 handles ; clone_fn runs ; drop_fn runs */
+  for (int r = 0; r < nrows; r++) {
+    int64_t v = rowbuf[r][0]; size_t n = (size_t)(rowlen[r] > 1 ? rowbuf[r][1] : 0); if (n > 2000) n = 2000;
+    n_anodes = 0; a_clones = a_drops = a_bad = 0;
+    ANode *root = &anodes[n_anodes++]; root->value = (uint64_t)v; root->live = 1;
+    CArcV a = { root, c_arc_clone, c_arc_drop };
+    uint64_t sum = rt_arc_rev(a, n);
+    int live = 0; for (int i = 0; i < n_anodes; i++) live += anodes[i].live;
+    if (a_bad) fail("c_built_arc:_a_handle_was_cloned_or_released_after_its_release_(or_a_null_handle_was_passed)");
+    if (live) fail("c_built_arc:_handles_returned_by_clone_fn_were_never_released");
+    if ((size_t)a_clones != n) fail("c_built_arc:_clone_fn_ran_another_number_of_times_than_rust_cloned");
+    row_begin(); row_put((int64_t)sum); row_put(a_clones); row_put(a_drops); row_end();
+  }
+}
+
 int main(void) {
   static char line[1 << 20];
   while (fgets(line, sizeof line, stdin)) {
@@ -311,7 +335,7 @@ int main(void) {
     fails[0] = 0; first_row = 1; { static int64_t d[4096]; rt_take_drops(d, 4096); }
     switch (kind) {
       case 1: k_box(); break; case 2: k_arc(); break; case 3: k_vec((int)elem); break; case 4: k_cb((int)elem); break;
-      case 5: k_it((int)elem); break; case 6: k_slice((int)elem); break; case 7: k_tags(); break; case 8: k_sizes(); break; case 9: k_cb_rev((int)elem); break; case 10: k_it_rev((int)elem); break;
+      case 5: k_it((int)elem); break; case 6: k_slice((int)elem); break; case 7: k_tags(); break; case 8: k_sizes(); break; case 9: k_cb_rev((int)elem); break; case 10: k_it_rev((int)elem); break; case 11: k_arc_rev(); break;
       default: row_begin(); row_put(-3); row_end();
     }
     printf(" # fails=%s\n", fails[0] ? fails : "-");
